@@ -603,14 +603,15 @@ func Queue[V any](arguments ...any) col.QueueLike[V] {
 	case sequence != nil:
 		queue = class.MakeFromSequence(sequence)
 	case len(source) > 0:
-		queue = class.Make()
 		var collection = notation.ParseSource(source).(col.Sequential[any])
 		// Convert the values to their real type.
 		var iterator = collection.GetIterator()
 		for iterator.HasNext() {
 			var value = convert[V](iterator.GetNext())
-			queue.AddValue(value)
+			values = append(values, value)
 		}
+		// The class constructor sizes the queue for its initial values.
+		queue = class.MakeFromArray(values)
 	default:
 		queue = class.Make()
 	}
@@ -761,14 +762,15 @@ func Stack[V any](arguments ...any) col.StackLike[V] {
 	case sequence != nil:
 		stack = class.MakeFromSequence(sequence)
 	case len(source) > 0:
-		stack = class.Make()
 		var collection = notation.ParseSource(source).(col.Sequential[any])
 		// Convert the values to their real type.
 		var iterator = collection.GetIterator()
 		for iterator.HasNext() {
 			var value = convert[V](iterator.GetNext())
-			stack.AddValue(value)
+			values = append(values, value)
 		}
+		// The first item in the source is the top of the stack (as parsed).
+		stack = class.MakeFromArray(values)
 	default:
 		stack = class.Make()
 	}
